@@ -6,6 +6,7 @@ import Rio.Model.Cache
 import Rio.Model.Kvfs
 import Rio.Model.Asm
 import Rio.Model.Osfs
+import Rio.Model.Git
 namespace Rio.Driver
 open Rio
 
@@ -240,6 +241,29 @@ def osfsEngine : List String → String
       | some sp => if sp.goesUp then "err fs-breakout" else showResolved (resolveLink t (numLinks t + 2) tg sp []).1
       | none => "panic"
     | _, _, _ => "bad-op"
+  | _ => "bad-op"
+
+/-- `git <filterints> <myuid> <mygid> <name:mode:blob;...|->` → the listing the unpack must produce -/
+def gitEngine : List String → String
+  | [f, mu, mg, es] =>
+    let parsed := if es = "-" then some [] else (es.splitOn ";").mapM (fun t => match t.splitOn ":" with
+      | [n, m, b] => do
+        let mode := match m with
+          | "d" => GitMode.dir | "f" => .regular | "x" => .executable | "L" => .symlink | "s" => .submodule | _ => .other
+        pure (⟨← fromHex n, mode, ← fromHex b⟩ : GitEntry)
+      | _ => none)
+    match parseUnpackFilter f, mu.toNat?, mg.toNat?, parsed with
+    | some ff, some mu, some mg, some es => match gitUnpackMetas es with
+      | none => "panic"
+      | some ms =>
+        -- filters are applied to every entry (errors ignored by the code: git has no devices / setid bits)
+        -- and the final re-paving sets every directory's mtime to the default time, whatever the mtime filter says
+        let ms' := ms.map (fun m => match applyUnpackFilter mu mg ff m with
+          | .ok m' => if m'.kind = .dir then { m' with mtime := defaultTime } else m'
+          | _ => m)
+        let lines := ms'.map (fun m => s!"{toHex m.name.path}|{kindTok m.kind}|{m.perms}|{m.uid}|{m.gid}|{m.mtime.sec}|{toHex m.linkname}")
+        ",".intercalate (sortBy (fun (x : String) => x.toUTF8.toList) lines)
+    | _, _, _, _ => "bad-op"
   | _ => "bad-op"
 
 def schemeOfTok : String → Option Scheme
